@@ -102,25 +102,30 @@ SEEDS = {
  'c19r5-log-mute-in-validate-lead': ('C19', 'two threads inside zck_validate_lead() on two contexts at the same time, non-default log level'),
  'c20r5-encoder-shift-guard': ('C20', 'encoding a value with bit 63 set'),
 }
+# rounds 6 and later are registered in seeded/registry.json (id -> [property, what it needs to manifest])
+_reg = os.path.join(os.path.dirname(os.path.abspath(__file__)), '..', 'seeded', 'registry.json')
+if os.path.exists(_reg):
+    for _k, _v in json.load(open(_reg)).items():
+        SEEDS.setdefault(_k, tuple(_v))
 PROPS = ['C%02d' % i for i in range(1, 21)]
 def sh(cmd, **kw):
     return subprocess.run(cmd, shell=True, stdout=subprocess.PIPE, stderr=subprocess.STDOUT, **kw).stdout.decode()
 only = sys.argv[1:]
 rows = []
 import tempfile, shutil
-for sid in sorted(SEEDS):
+def do_seed(sid):
     prop, needs = SEEDS[sid]
     d = '/verif/seeded/' + sid
     meta_p = d + '/meta.json'
     if only and sid not in only and os.path.exists(meta_p):
-        rows.append(json.load(open(meta_p))); continue
+        return json.load(open(meta_p))
     if not os.path.exists(d + '/patch.diff'):
-        continue
+        return None
     T = tempfile.mkdtemp(prefix='zcsa-matrix-')
     sh('git -C /repo archive HEAD src include meson.build meson_options.txt zchunk_format.txt | tar -x -C %s' % T)
     out = sh('cd %s && patch -p1 -s < %s/patch.diff' % (T, d))
     if out.strip():
-        print(sid, 'DOES NOT APPLY', out); shutil.rmtree(T); continue
+        print(sid, 'DOES NOT APPLY', out); shutil.rmtree(T); return None
     caught, broken, details = [], [], {}
     env = dict(os.environ, ZCSA_REPO=T, ZCSA_OUTDIR=T + '/_out')
     def run1(p):
@@ -129,7 +134,7 @@ for sid in sorted(SEEDS):
     # first check alone (fills the parse cache for the copy), the rest in parallel
     outs = [run1(PROPS[0])]
     from concurrent.futures import ThreadPoolExecutor
-    with ThreadPoolExecutor(max_workers=10) as ex:
+    with ThreadPoolExecutor(max_workers=6) as ex:
         outs += list(ex.map(run1, PROPS[1:]))
     for p, o in outs:
         if 'VIOLATION property=' in o:
@@ -146,8 +151,11 @@ for sid in sorted(SEEDS):
             'caught_by': caught, 'analysis_broken': broken, 'findings': details,
             'caught_by_own_property': prop in caught}
     json.dump(meta, open(meta_p, 'w'), indent=1)
-    rows.append(meta)
     print(sid, 'caught by', caught, 'broken', broken, flush=True)
+    return meta
+from concurrent.futures import ThreadPoolExecutor as _TPE
+with _TPE(max_workers=int(os.environ.get('MATRIX_JOBS', '3'))) as _ex:
+    rows = [m for m in _ex.map(do_seed, sorted(SEEDS)) if m is not None]
 with open('/verif/seeded/MATRIX.md', 'w') as f:
     f.write('# Seeded changes vs checks (generated by tools/seed_matrix.py)\n\n| seed | property | caught by (VIOLATION) | analysis-broken | own property check fires |\n|---|---|---|---|---|\n')
     for m in rows:
